@@ -8,6 +8,8 @@ def run(ctx):
     dynalloc.rule_allocators(ctx)
     dynalloc.rule_selector_retirement(ctx)
     dynalloc.rule_slot_exhaustion(ctx)
+    dynalloc.rule_reencode_on_removal(ctx)
+    dynalloc.rule_monotone_allocation(ctx)
     dyn.rule_dummy_delegation(ctx)
     ctx.assume("rustc's MIR and resolved callees; Vec/Cell/Rc/RefCell std semantics")
     return (
